@@ -50,7 +50,7 @@ def gen(ctx):
                 grains.append([i, j, rng.randint(1, max(1, T))])
         H = rng.choice([1, 1, 2])
         hist = [[[0] * C for _ in range(R)] for _ in range(H - 1)] + [g]
-        yield dict(kind="sp", hist=hist, closed=int(closed), grains=grains, T=T, dtype=rng.choice(["int32", "int64"]))
+        yield dict(kind="sp", hist=hist, closed=int(closed), grains=grains, T=T, dtype=rng.choice(["int32", "int64", "uint8", "int16", "uint16", "float64"]))
 
 
 def line(c):
@@ -78,7 +78,7 @@ def impl(c):
     res, exc, sp = run(c)
     if exc is not None:
         return fmt.err(exc)
-    return "ok grids=" + fmt.hist(res.tolist())
+    return "ok grids=" + fmt.hist(np.asarray(res).astype(np.int64).tolist())
 
 
 def btw(g, closed):
@@ -131,7 +131,9 @@ def oracle(c):
     if sp._K != 4:
         return "threshold is %s, BTW needs 4" % sp._K
     H = len(c["hist"])
-    grids = res.tolist()
+    if res.dtype != np.dtype(c["dtype"]):
+        return "result dtype differs from the automaton's"
+    grids = np.asarray(res).astype(np.int64).tolist()
     closed = bool(c["closed"])
     for t in range(1, c["T"]):
         prev = np.array(grids[H + t - 2], dtype=np.int64)
